@@ -213,6 +213,15 @@ def run_workbook(rc, k=[0]):
                     if not (isinstance(v, str) and v.startswith('=')) and v1 != ('ok', v) and not (isinstance(v, datetime.time) or isinstance(v, datetime.timedelta)):
                         if not (isinstance(v, datetime.date) and not isinstance(v, datetime.datetime)):      # openpyxl returns a date as datetime
                             fail = fail or 'constant cell %s holds %r, the class returns %r' % (a, v, v1)
+                # the class object and the written file keep behaving the same after one executor of the class object was given an override
+                # far outside the stored cells: a NEW object of either reports the workbook's titles and sizes
+                e1.set_cells([I.Cell(0, 40, 60, 1)])
+                I.outcome(lambda: e1.get_cell(I.Cell(0, 40, 60)).value)
+                a_ = cls()
+                b_ = I.Executor().set_executed_class(class_file=mod).get_executed_class()
+                if a_.get_sheets_size() != b_.get_sheets_size() or dict(a_.get_titles()) != dict(b_.get_titles()):
+                    fail = fail or 'after an executor was given a far-away override, a new object of the class object reports %r / %r, one loaded from the written file %r / %r' % (
+                        a_.get_titles(), a_.get_sheets_size(), b_.get_titles(), b_.get_sheets_size())
             except Timeout:
                 fail = fail or 'evaluation did not finish'
             finally:
